@@ -2,6 +2,7 @@ package rules
 
 import (
 	"fmt"
+	"go/token"
 	"go/types"
 	"strings"
 
@@ -356,6 +357,37 @@ func c13Init(c *Ctx) {
 					}
 				}
 			}
+		}
+		// an unexported helper: it is enough that every call of it in the module comes after init() in the caller
+		if !ok && !token.IsExported(fn.Name()) {
+			sites, okAll := 0, true
+			for _, caller := range moduleFuncs(c.P) {
+				for _, b := range caller.Blocks {
+					for i, in := range b.Instrs {
+						cl, isC := in.(*ssa.Call)
+						if !isC || cl.Common().StaticCallee() != fn {
+							continue
+						}
+						sites++
+						before := false
+						for _, b2 := range caller.Blocks {
+							for j, in2 := range b2.Instrs {
+								c2, isC2 := in2.(*ssa.Call)
+								if !isC2 || c2.Common().StaticCallee() == nil || !callsInit(c2.Common().StaticCallee()) {
+									continue
+								}
+								if (b2 == b && j < i) || (b2 != b && b2.Dominates(b)) {
+									before = true
+								}
+							}
+						}
+						if !before {
+							okAll = false
+						}
+					}
+				}
+			}
+			ok = sites > 0 && okAll
 		}
 		R.Check(ok, "C13.R2", key, shortFn(fn)+": updates a policy table", c.P.Pos(first.Pos()), "init() (or a fresh make) precedes the update", "a table may be updated before init(): nil-map panic for a zero-value Policy, and init() would later replace the table")
 	}
